@@ -88,7 +88,8 @@ type c14Case struct {
 	Steps  int   `json:"body_steps"`
 	Slow   int   `json:"slow_closer"` // -1 none
 	Wired  bool  `json:"wired_by_real_start,omitempty"`
-	Zero   int   `json:"zero_size_closers,omitempty"` // mask: stateless closers of field-less types (one shared address)
+	Both   bool  `json:"closers_are_runners_too,omitempty"` // wired closers also implement ApplicationRunner
+	Zero   int   `json:"zero_size_closers,omitempty"`       // mask: stateless closers of field-less types (one shared address)
 	Bound  int   `json:"preemption_bound"`
 	Script []int `json:"schedule,omitempty"`
 }
@@ -123,6 +124,9 @@ func c14Gen(c *core.Ctx) func(yield func(c14Case) bool) {
 				}
 			}
 			if n >= 1 && !yield(c14Case{N: n, Fail: 1, Steps: 1, Slow: -1, Wired: true, Bound: bound}) {
+				return
+			}
+			if n >= 1 && !yield(c14Case{N: n, Fail: 0, Steps: 0, Slow: -1, Wired: true, Both: true, Bound: bound}) {
 				return
 			}
 		}
@@ -179,11 +183,15 @@ func c14Run(c *core.Ctx) {
 			// the closers are found and wired by a real (free-running) start
 			var anys []any
 			for _, k := range closers {
-				anys = append(anys, &c14Named{c14Closer: k, name: fmt.Sprintf("closer%d", k.idx)})
+				if cs.Both {
+					anys = append(anys, &c14RunCloser{c14Named{c14Closer: k, name: fmt.Sprintf("closer%d", k.idx)}})
+				} else {
+					anys = append(anys, &c14Named{c14Closer: k, name: fmt.Sprintf("closer%d", k.idx)})
+				}
 			}
 			a = app.NewApp()
 			if err := a.Run(app.SetComponents(anys...)); err != nil || len(a.CloserComponents) != cs.N {
-				c.Report("C14/wiring/"+core.Hash(cs), "wiring", fmt.Sprintf("a real start wired %d of %d closers (err=%v)", len(a.CloserComponents), cs.N, err), cs)
+				c.Report("C14/wiring/"+core.Hash(cs), "not-exactly-once", fmt.Sprintf("after a real start only %d of the %d registered closers (closers are runners too: %v) are known to App.Close (err=%v): the others can never be closed", len(a.CloserComponents), cs.N, cs.Both, err), cs)
 				return
 			}
 		}
@@ -281,3 +289,8 @@ func c14ZReset() { scen.ZLog = nil }
 
 //go:norace
 func c14ZSnapshot() []string { return append([]string{}, scen.ZLog...) }
+
+// c14RunCloser is a closer that is an application runner as well (a server that is started and stopped).
+type c14RunCloser struct{ c14Named }
+
+func (r *c14RunCloser) Run() error { return nil }
